@@ -1309,7 +1309,9 @@ fn check_with(c: &Case, f: &Facts) -> Result<Notes, String> {
             Some((l, col)) => f.model.line(l).is_some_and(|s| col >= 1 && col - 1 <= s.chars().count()),
             None => false,
         };
-    let plain_expected = layout_ok && (!reader && (!c.opts.snippet || c.opts.crop == 0) || f.loc.is_none());
+    // (`with_snippet = false`: "public APIs that have access to the original YAML input will
+    // wrap returned errors with a snippet" only if true - the reader entry points included)
+    let plain_expected = layout_ok && (!c.opts.snippet || (!reader && c.opts.crop == 0) || f.loc.is_none());
 
     let large = c.text.len() > 4000;
     for fm in FM_ALL {
